@@ -7,6 +7,7 @@ starting a line with `//@`:
   //@prove <file> <Item::path> [nth=<k>] [impl~<regex>] [rename=<new>] [ret=<name>]
   //@contract                  lines up to the next directive: requires/ensures/decreases block
   //@loop <ordinal>            lines up to the next directive: invariant/decreases of the k-th loop
+  //@bodystart                 ghost text inserted right after the body's opening brace
   //@beforeloop <ordinal>      ghost text inserted right before the k-th loop's keyword
   //@foriter <ordinal>         one line: the name given to the k-th (for-in) loop's ghost iterator
   //@afterloop <ordinal>       ghost text inserted right after the k-th loop's closing brace
@@ -394,6 +395,8 @@ def parse_opts(words):
             opts["selfas"] = w[7:]
         elif w == "untuple":
             opts["untuple"] = True
+        elif w.startswith("generics="):
+            opts["generics"] = w[9:].replace(":", ": ").replace(",", ", ")
         else:
             raise ValueError("bad option " + w)
     return opts
@@ -428,6 +431,10 @@ def generate(template_path, twin=False):
             s = src(words[1])
             a, b = (s.find_typedef if kind == "struct" else s.find_const)(words[2])
             raw = s.text[a:b]
+            for w in words[3:]:
+                if w.startswith("expect="):
+                    if not re.search(w[7:], " ".join(raw.split())):
+                        raise AnchorLost("%s %s no longer matches /%s/: %s" % (kind, words[2], w[7:], " ".join(raw.split())[:120]))
             cleaned = strip_attrs_and_docs(raw)
             cleaned = re.sub(r"\bpub\s*\(\s*(crate|super)\s*\)", "pub", cleaned)
             if "pub" in words[3:]:
@@ -480,16 +487,21 @@ def generate(template_path, twin=False):
         # restricted visibility has no meaning in the single-file crate: pub(crate|super|in ..) -> pub
         sig_v = re.sub(r"^pub\s*\([^)]*\)", "pub", sig.rstrip())
         sig_named, had_ret = name_return(sig_v, opts.get("ret", "ret"))
+        if "generics" in opts:
+            fname = item.split("::")[-1]
+            sig_named = re.sub(r"(\bfn\s+%s\b)" % re.escape(fname), lambda m: m.group(1) + wrap("<" + opts["generics"] + ">"), sig_named, count=1)
         if "rename" in opts:
             fname = item.split("::")[-1]
             sig_named = re.sub(r"\bfn\s+%s\b" % re.escape(fname), lambda m: "fn " + wrap("") + opts["rename"] + wrap(""), sig_named, count=1)
             # rename is recorded; fidelity check maps it back
+        twin_contract = None
         if twin and kind == "prove":
-            # vacuity twin: an extra `ensures false` must make the function fail
+            # vacuity twin: a renamed copy of the function with an extra `ensures false` must fail.
+            # The original keeps its honest contract so that callers are not given `false`.
             if re.search(r"\bensures\b", contract):
-                contract = contract.rstrip().rstrip(",") + ",\n        false,"
+                twin_contract = contract.rstrip().rstrip(",") + ",\n        false,"
             else:
-                contract = contract + "\n    ensures false,"
+                twin_contract = contract + "\n    ensures false,"
         if kind == "stub":
             text = "#[verifier::external_body]\n" + sig_named + "\n" + contract + "\n{ unimplemented!() }"
             report["items"].append({"file": rel, "item": item, "role": "stub", "line": line_no,
@@ -506,7 +518,9 @@ def generate(template_path, twin=False):
             txt = "\n".join(b["text"])
             if b["kind"] == "contract":
                 continue
-            if b["kind"] in ("loop", "afterloop", "beforeloop", "foriter"):
+            if b["kind"] == "bodystart":
+                inserts.append((1, "\n" + txt + "\n"))
+            elif b["kind"] in ("loop", "afterloop", "beforeloop", "foriter"):
                 if loops is None:
                     loops = find_loops(body_bl)
                 k = int(b["arg"])
@@ -554,9 +568,17 @@ def generate(template_path, twin=False):
         new_body = "".join(nb)
         text = sig_named + "\n" + wrap(contract + "\n") + new_body
         out.append("// ---- proved verbatim: %s %s:%d" % (item, rel, line_no))
-        out.append("//@@begin %s %s" % (rel, item))
-        out.append(text)
-        out.append("//@@end")
+        if twin_contract is None:
+            out.append("//@@begin %s %s" % (rel, item))
+            out.append(text)
+            out.append("//@@end")
+        else:
+            out.append(text)
+            cur_name = opts.get("rename") or item.split("::")[-1]
+            tsig = re.sub(r"\bfn\s+((?:%s)?)%s\b" % (re.escape(wrap("")), re.escape(cur_name)), "fn " + cur_name + "__vxtwin", sig_named, count=1)
+            out.append("//@@begin %s %s" % (rel, item))
+            out.append(tsig + "\n" + wrap(twin_contract + "\n") + new_body)
+            out.append("//@@end")
         report["items"].append({"file": rel, "item": item, "role": "prove", "line": line_no,
                                 "body_sha256": hashlib.sha256(orig_text.encode()).hexdigest(),
                                 "loc": body.count("\n") + 1, "rename": opts.get("rename"),
